@@ -378,6 +378,24 @@ func genC19(r *rng, n int, emit func(string)) {
 		}
 		probe()
 	}
+	// keys that belong to another endpoint's request (encoding/json ignores a key the struct has no field for, whatever
+	// its value is), with one value of every JSON kind
+	allFields := []string{"secret", "timestamp", "counter", "code", "digits", "period", "skew", "algorithm", "raw_suite", "suite", "input", "type", "issuer", "account_name", "details", "valid"}
+	for _, p := range postPaths {
+		own := map[string]bool{}
+		for _, fn := range fieldsOf[p] {
+			own[fn] = true
+		}
+		for _, fn := range allFields {
+			if own[fn] {
+				continue
+			}
+			for _, k := range []string{"~s~" + hxs("x"), "~i~5", "~i~-1", "~r~1.5", "~b~1", "~n~", "~a~", "~o~" + hxs("x~i~1")} {
+				emit(rreq(pick(r, []string{"k", "f"}), "POST", p, "", obj(append(append([]string{}, base[p]...), fn+k)...)))
+			}
+		}
+		probe()
+	}
 	// extreme numbers where they matter: skew, period, counter, timestamp
 	for _, sk := range []string{"11", "255", "4294967296", "9223372036854775807", "18446744073709551615"} {
 		emit(rreq("k", "POST", "/totp/validate", "", obj(fS("secret", "GEZDGNBVGY3TQOJQGEZDGNBVGY3TQOJQ"), fS("code", "000000"), fI("timestamp", 59), "skew~i~"+sk)))
